@@ -6,9 +6,10 @@
 This interpreter is the parent process "P" of the model.  When the behaviour launches it, ONE multiprocessing child
 "C" (multiprocessing.Process, default context or an explicit fork / spawn / forkserver context) runs `child_main`:
 a command loop on a Pipe, so that the parent decides the order of every step of both processes (the interleaving TLC
-chose).  A child that does not answer within the step's time limit is recorded as "stuck" and killed (this is the
-hang of a forked child that enters an OpenMP region while the parent's thread pool was alive at the fork); a child
-whose pipe closes is "dead" (numba's OpenMP back end terminates such a child).
+chose).  A child that does not answer within the step's time limit while all of its threads sleep without using cpu
+time is recorded as "stuck" and killed (this is the hang of a forked child that enters an OpenMP region while the
+parent's thread pool was alive at the fork; a child that is merely slow on a busy box is running or runnable and is
+waited for); a child whose pipe closes is "dead" (numba's OpenMP back end terminates such a child).
 
 The driver knows nothing about expectations.  For every step it records
     ret     "ok" / value / "exc:<Type>"          nwarn  ImageD11's fork warnings raised by the step
@@ -19,7 +20,7 @@ except ImageD11.ImageD11_thread (pure python, no compiled code, needed for the f
 import os, sys, json, time, io
 
 T_STEP = 1.0          # seconds after which a silent child is examined (see `asleep`)
-T_MAX = 20.0          # a child that is still running (not asleep) gets this long
+T_HARD = 240.0        # a child that is still running or runnable (not asleep) gets this long (busy box)
 T_IMPORT = 60.0       # import of numba + the compiled module in a child (cold caches, busy box)
 T_NBKERNEL = 4.0      # array_bin + array_lt are compiled by numba on their first call (about 2 s, busy cpu: not asleep)
 FORK_WARNING = "forkserver or spawn"
@@ -334,16 +335,16 @@ def thread_op(op):
         ws[w].start()
     elif name == "tcheck":
         ws[w].req.put("check")
-        ret = ws[w].rsp.get(timeout=20)
+        ret = ws[w].rsp.get(timeout=120)
         if ret:
-            ws[w].join(20)
+            ws[w].join(120)
     elif name == "twork":
         ws[w].req.put("work")
-        ret = ws[w].rsp.get(timeout=20)
+        ret = ws[w].rsp.get(timeout=120)
     elif name == "traise":
         ws[w].req.put("raise")
-        ret = ws[w].rsp.get(timeout=20)
-        ws[w].join(20)
+        ret = ws[w].rsp.get(timeout=120)
+        ws[w].join(120)
     return {"ret": ret, "nwarn": 0, "otherwarn": []}
 
 
@@ -393,9 +394,12 @@ def main():
                 if not child["proc"].is_alive():
                     break
                 waited = time.time() - t0
-                if waited >= max(tmo, T_MAX):
+                if waited >= T_HARD:
                     break
-                if waited >= tmo - 1e-3 and not long_wait and asleep(child["proc"].pid):
+                # silent for tmo seconds: stuck only if every thread sleeps and none uses cpu time (a slow or
+                # starved child is running / runnable); the confirming run (long_wait) looks three times for 1 s
+                if waited >= tmo - 1e-3 and all(asleep(child["proc"].pid, 1.0 if long_wait else 0.3)
+                                                for _ in range(3 if long_wait else 1)):
                     break
         except (EOFError, OSError, BrokenPipeError):
             child["proc"].join(5)
@@ -438,7 +442,7 @@ def main():
                      "otherwarn": sorted(set(w.category.__name__ for w in wl if FORK_WARNING not in str(w.message)))}
                 hello = None
                 try:
-                    if pc.poll(T_IMPORT):
+                    if pc.poll(T_HARD):
                         hello = pc.recv()
                 except (EOFError, OSError):
                     pass
